@@ -751,7 +751,7 @@ func missingArgument(c Case) bool {
 var spec = pbt.Spec[Case]{
 	ID: "C14",
 	Rule: "generated: 0-2 partition columns (one scalar kind per column, or strings+ints mixed; hostile strings, NULL, missing), 1-6 partition tuples interleaved at random over 0-40 rows; " +
-		"value columns with repeats, ints/int64/floats mixed, NULL, missing; 1-3 SELECT items out of lag(v[,k[,def[,ignoreNull]]]), latest(v[,def]), had_changed(flag,v[,w]), changed_col(flag,v), " +
+		"value columns with repeats, ints/int64/floats mixed, NULL, missing; 1-3 SELECT items (function names in lower or upper case) out of lag(v[,k[,def[,ignoreNull]]]), latest(v[,def]), had_changed(flag,v[,w]), changed_col(flag,v), " +
 		"changed_cols(prefix,flag,cols...), acc_sum/count/avg/min/max(v[,start[,reset]]), wrappers (col - call, 100 - call, coalesce, CASE, acc_max-acc_min, sums/products of acc_*), OVER (PARTITION BY subset [WHEN cond]); " +
 		"WHERE none / analytic-free / containing an analytic call (cmp, bare, = true/false, plain AND lag); WithAnalyticMaxPartitions unset, above, exactly at, and below the live partition count. " +
 		"oracles: partition isolation (partition alone == inside the interleaved stream), path equality (EmitSync == Emit+sync sink == sync sink during EmitSync), which rows count " +
